@@ -116,6 +116,8 @@ def h_modified(ctx, base, mname, n, slot):
         "with_path": lambda: b.with_path(a), "with_query": lambda: b.with_query(a), "with_fragment": lambda: b.with_fragment(a),
         "with_name": lambda: b.with_name(a), "div": lambda: b / a, "build": lambda: P.URL.build(scheme="http", host="h", user=a, password="p", path="/" + a, query_string="k=v", fragment=a),
         "build-authority": lambda: P.URL.build(scheme="x", authority="u" + a + "@h:1"),
+        "build-ipv6": lambda: P.URL.build(scheme="http", host="::1", port=8080, path="/" + a),
+        "build-ipv6-user": lambda: P.URL.build(scheme="http", host="fe80::1%eth0", user="u" + a, path="/"),
     }
     r = call(ops[mname])
     ctx.observe(mname, outcome(r))
@@ -138,11 +140,12 @@ def families(tier):
     for nm, sk in sks[:4]:
         fams.append(Family("netloc-http/%s" % nm, h_netloc, dict(skeleton=sk, slot=0, scheme="http")))
     plain = ["", "/", "?q", "#f", "mailto:a@b", "http://h", "http://h:80", "//h?q", "http://[::1]:8/p", "http://ex%41mple.com/%7e?%61=%3D#%2f",
-             "x://:80", "//u@", "//@", "x://u:p@:1/a", "//[x:x:%2FA]", "http://[v1.x]/p", "http://[::1%25eth0]:8/"]
+             "x://:80", "//u@", "//@", "x://u:p@:1/a", "//[x:x:%2FA]", "http://[v1.x]/p", "http://[::1%25eth0]:8/",
+             "mailto:", "about:#top", "//h", "http://ＥＸＡＭＰＬＥ.com/p", "http://exa\u00admple.de/", "http://bücher.example/ü?ü#ü"]
     for i, t in enumerate(plain):
         for slot in range(NSLOTS):
             fams.append(Family("plain-%d/accessors-%d" % (i, slot), h_plain, dict(text=t, slot=slot)))
-    for mname in ("with_user", "with_password", "with_host", "with_path", "with_query", "with_fragment", "with_name", "div", "build", "build-authority"):
+    for mname in ("with_user", "with_password", "with_host", "with_path", "with_query", "with_fragment", "with_name", "div", "build", "build-authority", "build-ipv6", "build-ipv6-user"):
         for slot in range(NSLOTS):
             if q and slot not in (0, 3, 5):
                 continue
